@@ -386,6 +386,19 @@ static int diff_fits(const rtosc_arg_val_t* a, const rtosc_arg_val_t* b)
     }
 }
 
+//! whether a and b are equal AND are printed in the same way
+//! (-0.0 equals 0.0, but the two can not share a constant run "Nx0.0")
+static int eq_for_run(const rtosc_arg_val_t* a, const rtosc_arg_val_t* b)
+{
+    if(!rtosc_arg_vals_eq_single(a, b, NULL))
+        return 0;
+    if(a->type == 'f')
+        return !memcmp(&a->val.f, &b->val.f, sizeof(a->val.f));
+    if(a->type == 'd')
+        return !memcmp(&a->val.d, &b->val.d, sizeof(a->val.d));
+    return 1;
+}
+
 static const char* numeric_range_convertible_types()
 {
     // note: floats can not be converted to counting ranges safely
@@ -421,7 +434,7 @@ static int32_t rtosc_convert_to_range(const rtosc_arg_val_t* const arg,
     int has_delta;
     rtosc_arg_val_t delta, added;
 
-    if(rtosc_arg_vals_eq_single(arg, arg + incsize(arg), NULL))
+    if(eq_for_run(arg, arg + incsize(arg)))
         has_delta = 0;
     else if(strchr(numeric_range_convertible_types(), arg->type) &&
             diff_fits(arg, arg+1)) {
@@ -451,7 +464,7 @@ static int32_t rtosc_convert_to_range(const rtosc_arg_val_t* const arg,
                 else
                     go_on = false;
             }
-            else if(!rtosc_arg_vals_eq_single(arg, arg+next, NULL))
+            else if(!eq_for_run(arg, arg+next))
                 go_on = false;
         }
     }
